@@ -374,6 +374,8 @@ mod token;
 
 #[doc(hidden)]
 pub mod unicode;
+#[cfg(pest_parser_pest_verif)]
+pub mod verif;
 
 /// A trait which parser rules must implement.
 ///
